@@ -819,6 +819,13 @@ func (e *SpecEnv) call(n *SCall) Value {
 			return boolV(tTrue)
 		}
 		return boolV(tFalse)
+	case "locked":
+		// locked(obj): a mutex that is a field of *obj is held
+		v := e.eval(n.Args[0])
+		if v.K != KRef {
+			specFail("locked(): not a pointer to a struct")
+		}
+		return boolV(x.lockedTerm(e.st, v.S))
 	case "heldw":
 		key := x.lockKey(e.eval(n.Args[0]))
 		if e.st.held[key] == "w" {
